@@ -112,7 +112,13 @@ def _bits_for(n):
     return n.bit_length()
 
 
+def _single(a):
+    return a[0] is not None and a[0] == a[1]
+
+
 def band(a, b):
+    if _single(a) and _single(b):
+        return (a[0] & b[0], a[0] & b[0])
     # x & m with m = 1..10..0 covering every bit x can have above the cleared low
     # bits rounds x down to a multiple of 2^k: monotone in x
     for x, m in ((a, b), (b, a)):
@@ -133,6 +139,8 @@ def band(a, b):
 
 
 def bor(a, b):
+    if _single(a) and _single(b):
+        return (a[0] | b[0], a[0] | b[0])
     if a[0] is not None and b[0] is not None and a[0] >= 0 and b[0] >= 0:
         if a[1] is None or b[1] is None:
             return (max(a[0], b[0]), None)
@@ -155,6 +163,8 @@ def bor(a, b):
 
 
 def bxor(a, b):
+    if _single(a) and _single(b):
+        return (a[0] ^ b[0], a[0] ^ b[0])
     if a[0] is not None and b[0] is not None and a[0] >= 0 and b[0] >= 0 and a[1] is not None and b[1] is not None:
         n = max(_bits_for(a[1]), _bits_for(b[1]))
         return (0, (1 << n) - 1)
